@@ -25,3 +25,54 @@ Theorem C11_block_comment_slashes_refuted :
   | ScanUnterminated => False
   end.
 Proof. vm_compute. split; reflexivity. Qed.
+
+From CC Require Import Model.ScanSpec Proofs.ScanFacts.
+
+(** a // comment runs to the end of its line whatever it contains *)
+Theorem C11_line_comment_dropped : forall asm pre cmt st,
+  sc_in_comment st = false -> no_markers pre -> pre <> "" ->
+  forall no_trailing_slash : ends_with "/" pre = false,
+  scan_line asm (pre ++ "//" ++ cmt) st = ScanOk pre true st.
+Proof. exact line_comment_dropped. Qed.
+
+(** a block comment ends at its first */ and is removed (body without //: the known finding) *)
+Theorem C11_block_comment_removed : forall asm pre body post st,
+  sc_in_comment st = false -> no_markers pre ->
+  forall no_trailing_slash : ends_with "/" pre = false,
+  contains "*/" body = false ->
+  forall no_slashes_in_comment : contains "//" body = false,
+  forall post_not_slash : starts_with "/" post = false,
+  contains """" post = false -> contains "//" post = false -> contains "/*" post = false ->
+  post <> "" -> post <> nl ->
+  scan_line asm (pre ++ "/*" ++ body ++ "*/" ++ post) st = ScanOk (pre ++ post) true st.
+Proof. exact scan_line_block_comment. Qed.
+
+(** a comment spanning lines: opened on one line ... *)
+Theorem C11_comment_open : forall asm a c st,
+  sc_in_comment st = false -> no_markers a ->
+  forall no_trailing_slash : ends_with "/" a = false,
+  contains "*/" c = false ->
+  forall no_slashes_in_comment : contains "//" c = false,
+  scan_line asm (a ++ "/*" ++ c) st
+  = ScanOk a (negb (String.eqb a "")) (mkScan true (sc_next_lit st) (sc_lits st)).
+Proof. exact comment_spans_lines_open. Qed.
+
+(** ... lines inside it vanish ... *)
+Theorem C11_comment_inside : forall asm c st,
+  sc_in_comment st = true -> contains "*/" c = false -> scan_line asm c st = ScanOk "" false st.
+Proof. exact comment_line_inside. Qed.
+
+(** ... and it is closed at the first */ of a later line *)
+Theorem C11_comment_close : forall asm c d st,
+  sc_in_comment st = true -> contains "*/" c = false ->
+  contains """" d = false -> contains "//" d = false -> contains "/*" d = false ->
+  d <> "" -> d <> nl ->
+  scan_line asm (c ++ "*/" ++ d) st = ScanOk d true (mkScan false (sc_next_lit st) (sc_lits st)).
+Proof. exact comment_spans_lines_close. Qed.
+
+(** backslash-newline joins physical lines *)
+Theorem C11_splice_joins : forall fuel a l rest,
+  forall joined_ends_plain : ends_with ("\" ++ nl) (a ++ l) = false,
+  forall joined_ends_plain_crlf : ends_with ("\" ++ cr ++ nl) (a ++ l) = false,
+  splice (S (S fuel)) (a ++ "\" ++ nl) (l :: rest) 0%N = (a ++ l, 1%N, rest).
+Proof. exact splice_joins. Qed.
